@@ -60,6 +60,10 @@ def c07b_merged(ctx, tu):
     on the is_forbidden() branch exactly one fatal report, with this expectation's loc, whose text streams this
     expectation's name and the actual arguments of the call."""
     n = 0
+    if not tu.find(A["is_forbidden"], body=False):
+        ctx.ob("C07.b.report", A["run_actions"] + " (forbidden branch)", None, unit=tu.name,
+               detail="the forbidden test is not found under its name: the forbidden branch cannot be identified")
+        return 0
     for fn in tu.need(A["run_actions"], 5):
         n += 1
         guard = [(bid, cond_shape(cfg.cond_of(fn, bid))[1]) for bid in fn.blocks if cfg.cond_of(fn, bid) is not None and
